@@ -147,13 +147,28 @@ func checkC08(e *Env) {
 
 	// Signature header
 	if sg := e.fn("signedexchange.(*Signer).signatureHeaderValue"); sg != nil {
-		var keys []string
-		for _, b := range sg.Blocks {
-			for _, in := range b.Instrs {
-				if mu, ok := in.(*ssa.MapUpdate); ok {
-					keys = append(keys, strings.TrimPrefix(prov.Of(mu.Key), "const:"))
+		// the map updates of the function and of helpers the rule tables do not
+		// know, rendered with the helpers' parameters standing for the arguments
+		type upd struct{ key, val string }
+		var upds []upd
+		scan := func(f *ssa.Function) {
+			for _, b := range f.Blocks {
+				for _, in := range b.Instrs {
+					if mu, ok := in.(*ssa.MapUpdate); ok {
+						upds = append(upds, upd{prov.Of(mu.Key), prov.Of(mu.Value)})
+					}
 				}
 			}
+		}
+		scan(sg)
+		for _, c := range unknownHelperCalls(e, sg) {
+			prov.PushSubst(c.Call.StaticCallee(), &c.Call)
+			scan(c.Call.StaticCallee())
+			prov.PopSubst()
+		}
+		var keys []string
+		for _, u := range upds {
+			keys = append(keys, strings.TrimPrefix(u.key, "const:"))
 		}
 		e.tableEqual("signature-header:parameter-keys", e.P.Pos(sg.Pos()), dedup(keys), specSigKeys, "parameters the signer emits", "specification (section 3.1)")
 		e.requireGates("GATE", sg, gate.Outcome{Kind: gate.ErrNil, Idx: 1}, noCfg,
@@ -170,11 +185,9 @@ func checkC08(e *Env) {
 			{"expires", "call:(time.Time).Unix(param:s.Expires)"},
 		} {
 			found := false
-			for _, b := range sg.Blocks {
-				for _, in := range b.Instrs {
-					if mu, ok := in.(*ssa.MapUpdate); ok && prov.Of(mu.Key) == fmt.Sprintf("const:%q", kv.key) {
-						found = prov.Of(mu.Value) == kv.val
-					}
+			for _, u := range upds {
+				if u.key == fmt.Sprintf("const:%q", kv.key) {
+					found = u.val == kv.val
 				}
 			}
 			key := "signature-header:value(" + kv.key + ")"
